@@ -77,15 +77,17 @@ func (dc *agentConnection) Read(b []byte) (int, error) {
 	case <-after:
 		return 0, ErrTimeout
 	case _, ok := <-dc.in:
-		if !ok {
-			log.Errorf("Error reading from channel, return EOF")
-			return 0, io.EOF
-		}
-
+		// bytes may have been buffered without this reader being woken:
+		// hand them out before reporting the end of the stream
 		dc.m.Lock()
 		n := copy(b[:], dc.buff[0:])
 		dc.buff = dc.buff[n:]
 		dc.m.Unlock()
+
+		if n == 0 && !ok {
+			log.Errorf("Error reading from channel, return EOF")
+			return 0, io.EOF
+		}
 
 		return n, nil
 	}
